@@ -418,7 +418,7 @@ func firstLine(s string) string {
 var kindName = map[string]string{"ss": "stringset", "br": "branchesrepos", "rm": "reposmap"}
 
 // decodeCase runs one decoder on b in the worker and emits the case.
-func decodeCase(w *gen.Writer, kind string, b []byte, class string) {
+func decodeCase(w *gen.Writer, kind string, b []byte, class string, known ...[]byte) {
 	r := ask(kind + " " + gen.Hex(b))
 	impl := r.canon
 	if r.cls != "done" {
@@ -431,7 +431,11 @@ func decodeCase(w *gen.Writer, kind string, b []byte, class string) {
 	case "rm":
 		c.In = fmt.Sprintf("rmdec %s %d", gen.Hex(b), r.alloc)
 	case "br":
-		c.In = fmt.Sprintf("brdec %s %d %s", gen.Hex(b), r.alloc, roaringTable(b))
+		tb := b
+		if len(known) > 0 { // a valid encoding whose bitmap slices are known: no need to try every offset
+			tb = nil
+		}
+		c.In = fmt.Sprintf("brdec %s %d %s", gen.Hex(b), r.alloc, roaringTable(tb, known...))
 	}
 	c.Impl = impl
 	// Go-side oracles on the implementation's behaviour (independent of the model)
@@ -544,7 +548,7 @@ func rmEqual(a, b zoekt.ReposMap) bool {
 	return true
 }
 
-func brRoundTrip(w *gen.Writer, l []query.BranchRepos, class string) []byte {
+func brRoundTrip(w *gen.Writer, l []query.BranchRepos, class string) ([]byte, [][]byte) {
 	var entries []string
 	var sers [][]byte
 	for _, br := range l {
@@ -588,11 +592,11 @@ func brRoundTrip(w *gen.Writer, l []query.BranchRepos, class string) []byte {
 	} else {
 		c.Go, c.Key = "encode failed: "+err.Error(), "roundtrip:branchesrepos"
 	}
-	c.In = fmt.Sprintf("brrt %s %s", es, roaringTable(enc, sers...))
+	c.In = fmt.Sprintf("brrt %s %s", es, roaringTable(nil, sers...))
 	c.Impl = fmt.Sprintf("enc=%s dec=%s", gen.Hex(enc), dec)
 	c.Detail = gen.Detail(map[string]any{"kind": "brrt", "entries": es})
 	w.Emit(c)
-	return enc
+	return enc, append(sers, nil) // nil: the empty slice, so that `known` is never empty
 }
 
 // ---------------------------------------------------------------- generators
@@ -915,9 +919,9 @@ func main() {
 		for k := 0; k < nMut; k++ {
 			decodeCase(w, "rm", mutate(r, enc), "mutated")
 		}
-		enc = brRoundTrip(w, genBrList(r), "gen")
-		if len(enc) < 20000 {
-			decodeCase(w, "br", enc, "valid")
+		enc, sers := brRoundTrip(w, genBrList(r), "gen")
+		decodeCase(w, "br", enc, "valid", sers...)
+		if len(enc) < f.N(1500, 6000) { // the table of a mutated input has one roaring parse per offset
 			for k := 0; k < nMut; k++ {
 				decodeCase(w, "br", mutate(r, enc), "mutated")
 			}
